@@ -264,10 +264,22 @@ def _pad_ok(world, o, obs, r, p, final=False, strict=True):
         # padding at the very end of an interval: uninitialized bytes that
         # were made explicit; nothing follows inside this interval
         return True
-    nxt = [b for (b, off, size, kind) in o.blocks if off == r + p]
-    al = max((obs.align.get(b.uuid, 1) for b in nxt), default=1)
+    if not any(off == r + p for (b, off, size, kind) in o.blocks):
+        return False
+    # join_byte_intervals pads in front of the (temporary) interval that
+    # holds the first block with an alignment requirement, so the aligned
+    # block may start later than the end of the padding
+    later = [(off, obs.align.get(b.uuid, 1)) for (b, off, size, kind) in o.blocks if off >= r + p and obs.align.get(b.uuid, 1) > 1]
+    if not later:
+        return False
+    at_end = [a for off, a in later if off == r + p]
+    al = max(at_end) if at_end else max(a for _, a in later)
     if al <= 1:
         return False
+    if not at_end:
+        # cannot re-derive the address arithmetic of the join: only the
+        # size bound applies
+        return p < al
     # Padding is computed when the intervals are re-joined, before a
     # possible re-layout moves the interval; whether it is minimal and still
     # leaves the block aligned afterwards is judged by C10, not here.
